@@ -192,7 +192,9 @@ def handle (tag : String) (args : List String) (obs : String) : String :=
       -- `cut<N>`: the client sends only the first N bytes and goes away
       -- `busy<N>`: the same, while every thread of the handler pool is taken by other connections
       let all := if _sched.startsWith "cut" then full.take ((_sched.drop 3).toString.toNat?.getD full.length)
-        else if _sched.startsWith "busy" then full.take ((_sched.drop 4).toString.toNat?.getD full.length) else full
+        else if _sched.startsWith "busy" then full.take ((_sched.drop 4).toString.toNat?.getD full.length)
+        -- `rst<N>`: the first N bytes, then the client resets the connection (it never reads: its transcript is empty)
+        else if _sched.startsWith "rst" then full.take ((_sched.drop 3).toString.toNat?.getD full.length) else full
       let cfg : Cfg := { smallBodyLen := s, cacheDir := cache != "0", fs := { createFails := cache == "2" } }
       let (c, calls1) := handleConn false C05.simpleUrl cfg (handlerOf reqs) (max 64 (reqs.length + 8)) { input := all } []
       -- `par3`: three connections send the same bytes; the merged call log is compared sorted
@@ -204,7 +206,8 @@ def handle (tag : String) (args : List String) (obs : String) : String :=
       let tailLost := match obsWire with
         | some w => !c.input.isEmpty && w.length < c.wire.length && w.isPrefixOf c.wire
         | none => false
-      let shownWire := if tailLost then obsWire.getD c.wire else c.wire
+      let isRst := _sched.startsWith "rst"
+      let shownWire := if tailLost || isRst then obsWire.getD c.wire else c.wire
       let callStrs := calls.map showCall
       let callStrs := if _sched == "par3" then (callStrs ++ callStrs ++ callStrs).mergeSort (fun a b => a ≤ b) else callStrs
       -- `hold`: the client keeps its sending side open; the answer arrives early iff the server does not
@@ -229,7 +232,7 @@ def handle (tag : String) (args : List String) (obs : String) : String :=
           let parOk := _sched != "par3" || obsCalls == callStrs
           let obsCalls := if _sched == "par3" then calls1.map showCall else obsCalls
           let fails := (if parOk then [] else ["concurrent-connections-interfere"]) ++
-            exchangeCheck reqs obsCalls (if tailLost then c.wire else wire) (_sched.startsWith "cut" || _sched.startsWith "busy") ++
+            (if isRst then [] else exchangeCheck reqs obsCalls (if tailLost then c.wire else wire) (_sched.startsWith "cut" || _sched.startsWith "busy")) ++
             (if files == "0" then [] else ["temp-file-left-behind"]) ++
             (if outlivedS != "" && obsGet obs "outlived" != some "0" then ["temp-file-outlives-its-request"] else []) ++
             (if _sched == "hold" && earlyS != "" && obsGet obs "early" != some (earlyS.drop 7).toString then
